@@ -1045,8 +1045,69 @@ def _load_ext():
         pass
 
 
+def outcome(r):
+    """canonical observable outcome of a witness in the CURRENT execution mode (used by the mode-differential replay)"""
+    h = r.get("harness", "prop")
+    try:
+        if h == "prop":
+            return ["ok", real_prop(r["alg"], r["box"], r["params"])]
+        if h == "solve":
+            return ["ok", run_real(r)]
+        if h == "stack":
+            import nucs.heuristics.heuristics as H
+            from nucs.problems.problem import Problem
+            from nucs.solvers.backtrack_solver import BacktrackSolver
+            from nucs.solvers.consistency_algorithms import CONSISTENCY_ALG_BC, CONSISTENCY_ALG_SHAVING
+
+            heur = r.get("heuristic", "min_value")
+            nvars = r.get("nvars") or r["height"]
+            widths = r.get("widths") or [1] * nvars
+            s = BacktrackSolver(Problem([(0, w) for w in widths]), consistency_alg_idx=CONSISTENCY_ALG_SHAVING if r.get("shaving") else CONSISTENCY_ALG_BC, dom_heuristic_idx=getattr(H, "DOM_HEURISTIC_" + heur.upper()), dom_heuristic_params=[[2, 1, 2]] * nvars if heur == "min_cost" else [[]], stack_max_height=r["height"], log_level="CRITICAL")
+            first = next(iter(s.solve()))
+            return ["ok", [int(x) for x in first], s.get_statistics()["SOLVER_CHOICE_DEPTH"]]
+        if h == "heur":
+            fails, info = heur_failures(r)
+            return ["ok", sorted(fails), str(info)]
+    except Exception as e:  # noqa
+        return ["raised", type(e).__name__]
+    return ["unsupported"]
+
+
+def replay_mode_hazard(r):
+    """runs the witness in two fresh interpreters, compiled and interpreted, and compares what the user observes"""
+    import signal
+    import subprocess
+    import tempfile
+
+    with tempfile.NamedTemporaryFile("w", suffix=".json", delete=False) as f:
+        json.dump(r, f)
+        path = f.name
+    outs = {}
+    for mode in ("jit", "interpreted"):
+        env = dict(os.environ)
+        if mode == "jit":
+            env.pop("NUMBA_DISABLE_JIT", None)
+        else:
+            env["NUMBA_DISABLE_JIT"] = "1"
+        proc = subprocess.Popen([sys.executable, os.path.abspath(__file__), "--outcome", path], stdout=subprocess.PIPE, stderr=subprocess.PIPE, text=True, env=env, start_new_session=True)
+        try:
+            out, err = proc.communicate(timeout=float(os.environ.get("NUSYM_WATCHDOG_S", "90")))
+            line = [l for l in out.splitlines() if l.startswith("OUTCOME ")]
+            outs[mode] = line[-1][8:] if line else f"crashed rc={proc.returncode}"
+        except subprocess.TimeoutExpired:
+            os.killpg(proc.pid, signal.SIGKILL)
+            proc.wait()
+            outs[mode] = "timeout"
+    os.unlink(path)
+    return outs["jit"] != outs["interpreted"], f"compiled: {outs['jit'][:300]} | interpreted: {outs['interpreted'][:300]}"
+
+
 def main(argv):
     _load_ext()
+    if argv and argv[0] == "--outcome":
+        r = json.load(open(argv[1]))
+        print("OUTCOME " + json.dumps(outcome(r), default=str))
+        return 0
     if argv and argv[0] == "--validate":
         batch = json.load(open(argv[1]))
         bad = 0
@@ -1058,7 +1119,10 @@ def main(argv):
         print(f"VALIDATED {len(batch) - bad} / {len(batch)}")
         return 0 if bad == 0 else 4
     r = json.load(open(argv[0]))
-    ok, info = HANDLERS[r.get("harness", "prop")](r)
+    if r.get("kind") == "mode-hazard":
+        ok, info = replay_mode_hazard(r)
+    else:
+        ok, info = HANDLERS[r.get("harness", "prop")](r)
     mode = "interpreted" if os.environ.get("NUMBA_DISABLE_JIT") else "jit"
     print(("REPRODUCED" if ok else "NOT-REPRODUCED"), f"[{mode}]", r.get("prop"), r.get("kind"), info)
     return 0 if ok else 3
